@@ -46,6 +46,10 @@
 #include "utils/bt_encode.h"
 
 #define BT_EN_PRE_ALLOC_ITEMS	64
+#define BT_EN_MAX_DEPTH		256 /* Max nested lists/dictionaries. */
+
+static int	bt_en_decode_lvl(uint8_t *buf, size_t buf_size,
+		    bt_en_node_p *ret_data, size_t *ret_buf_off, size_t lvl);
 
 
 /*
@@ -107,6 +111,13 @@ bt_en_free(bt_en_node_p node) {
  */
 int
 bt_en_decode(uint8_t *buf, size_t buf_size, bt_en_node_p *ret_data, size_t *ret_buf_off) {
+
+	return (bt_en_decode_lvl(buf, buf_size, ret_data, ret_buf_off, 0));
+}
+
+static int
+bt_en_decode_lvl(uint8_t *buf, size_t buf_size, bt_en_node_p *ret_data,
+    size_t *ret_buf_off, size_t lvl) {
 	size_t raw_size, buf_off, items_allocated, items_count;
 	uint8_t *ptm, *cur_pos, *buf_max;
 	bt_en_node_p *l;
@@ -115,6 +126,8 @@ bt_en_decode(uint8_t *buf, size_t buf_size, bt_en_node_p *ret_data, size_t *ret_
 
 	if (NULL == buf || 0 == buf_size || NULL == ret_data)
 		return (EINVAL);
+	if (BT_EN_MAX_DEPTH < lvl)
+		return (EBADMSG); /* Nested too deep. */
 
 	buf_max = (buf + buf_size);
 	(*ret_data) = NULL;
@@ -181,8 +194,8 @@ bt_en_decode(uint8_t *buf, size_t buf_size, bt_en_node_p *ret_data, size_t *ret_
 			if (0 != error)
 				break;
 			/* Decode and store list element. */
-			error = bt_en_decode(cur_pos, (size_t)(buf_max - cur_pos),
-			    &l[items_count], &buf_off);
+			error = bt_en_decode_lvl(cur_pos, (size_t)(buf_max - cur_pos),
+			    &l[items_count], &buf_off, (lvl + 1));
 			if (0 != error)
 				break;
 			items_count ++;
@@ -239,8 +252,8 @@ bt_en_decode(uint8_t *buf, size_t buf_size, bt_en_node_p *ret_data, size_t *ret_
 			if (0 != error)
 				break;
 			/* Dict key. */
-			error = bt_en_decode(cur_pos, (size_t)(buf_max - cur_pos),
-			    &d[items_count].key, &buf_off);
+			error = bt_en_decode_lvl(cur_pos, (size_t)(buf_max - cur_pos),
+			    &d[items_count].key, &buf_off, (lvl + 1));
 			if (0 != error)
 				break;
 			/* Key mast bee string. */
@@ -250,8 +263,8 @@ bt_en_decode(uint8_t *buf, size_t buf_size, bt_en_node_p *ret_data, size_t *ret_
 			}
 			cur_pos += buf_off;
 			/* Value. */
-			error = bt_en_decode(cur_pos, (size_t)(buf_max - cur_pos),
-			    &d[items_count].val, &buf_off);
+			error = bt_en_decode_lvl(cur_pos, (size_t)(buf_max - cur_pos),
+			    &d[items_count].val, &buf_off, (lvl + 1));
 			if (0 != error) {
 				bt_en_free(d[items_count].key);
 				break;
